@@ -1,2 +1,16 @@
 import MW.Props.C11
+#print axioms MW.Props.C11.innerKey_inj
+#print axioms MW.Props.C11.prefix_isolated
+#print axioms MW.Props.C11.index_disjoint
 #print axioms MW.Props.C11.bytesPrefix_spec
+#print axioms MW.Props.C11.bytesPrefix_unbounded_iff
+#print axioms MW.Props.C11.get_ryw
+#print axioms MW.Props.C11.getByPrefix_ryw
+#print axioms MW.Props.C11.bucketNames_ryw
+#print axioms MW.Props.C11.bucketExists_ryw
+#print axioms MW.Props.C11.commit_atomic
+#print axioms MW.Props.C11.iter_sorted
+#print axioms MW.Props.C11.kv_refines
+#print axioms MW.Props.C11.kv_step_refines
+#print axioms MW.Props.C11.reader_isolated
+#print axioms MW.Props.C11.deleteBucket_total
